@@ -72,8 +72,8 @@ class Peer(ScriptNode):
                     elif beh == 'silent':
                         del self.rx[(sa, ses)]
                     else:
-                        self.sim.after(0.001, self.tx, C.PF_FD_TP_CM, sa, C.fdcm_cts(ses, 1, min(m['limit'], m['segments']), m['pgn']))
-                        st['granted'] = min(m['limit'], m['segments'])
+                        self.sim.after(0.001, self.tx, C.PF_FD_TP_CM, sa, C.fdcm_cts(ses, 1, min(m['limit'], m['segments'], 2), m['pgn']))
+                        st['granted'] = st['granted0'] = min(m['limit'], m['segments'], 2)
                 elif m['type'] == 'EOMS' and (sa, ses) in self.rx:
                     st = self.rx.pop((sa, ses))
                     if st['beh'] == 'complete':
@@ -91,6 +91,10 @@ class Peer(ScriptNode):
                     if st['beh'] == 'abort_after_dt':
                         self.tx(C.PF_FD_TP_CM, sa, C.fdcm_abort(ses, 2, st['pgn']))
                         del self.rx[(sa, ses)]
+                    elif st['beh'] == 'abort_at_t3':
+                        if st['got'] == st['granted0']:
+                            self.sim.after(1.25, self.tx, C.PF_FD_TP_CM, sa, C.fdcm_abort(ses, 3, st['pgn']))
+                            del self.rx[(sa, ses)]
                     elif st['beh'] == 'cts_then_silent':
                         del self.rx[(sa, ses)]
                     else:
@@ -111,7 +115,7 @@ class Peer(ScriptNode):
                     elif beh == 'silent':
                         del self.rx[(sa, None)]
                     else:
-                        st['granted'] = min(m['limit'], m['packets'])
+                        st['granted'] = st['granted0'] = min(m['limit'], m['packets'])
                         self.sim.after(0.001, self.tx, C.PF_TP_CM, sa, C.tpcm_cts(st['granted'], 1, m['pgn']))
                 elif m['type'] == 'CTS' and (sa, None) in self.out:
                     self.o_cts(self.out[(sa, None)], m['next'], m['n'])
@@ -124,6 +128,11 @@ class Peer(ScriptNode):
                     if st['beh'] == 'abort_after_dt':
                         self.tx(C.PF_TP_CM, sa, C.tpcm_abort(2, st['pgn']))
                         del self.rx[(sa, None)]
+                    elif st['beh'] == 'abort_at_t3':
+                        # silent, then an abort that crosses the originator's own T3 time-out
+                        if st['got'] == st['granted0']:
+                            self.sim.after(1.25, self.tx, C.PF_TP_CM, sa, C.tpcm_abort(3, st['pgn']))
+                            del self.rx[(sa, None)]
                     elif st['beh'] == 'cts_then_silent':
                         del self.rx[(sa, None)]
                     elif st['got'] >= st['n']:
@@ -283,7 +292,7 @@ def run_case(case):
             sim.at(t, f)
             obs['failed_transfers'] += 1
         elif kind == 's_r':
-            beh = rng.choice(['complete', 'abort_on_rts', 'abort_after_dt', 'cts_then_silent', 'silent'])
+            beh = rng.choice(['complete', 'abort_on_rts', 'abort_after_dt', 'cts_then_silent', 'silent', 'abort_at_t3'])
             if beh != 'complete':
                 obs['failed_transfers'] += 1
 
